@@ -93,8 +93,27 @@ impl Monitor for C16 {
         let mut model = crate::ops::Model::new(key);
         let mut prev_used = d.sut.log().resource_usage().memory_used_bytes as u64;
         let mut sampled = false;
+        // one history in three starts with a scripted prelude on a queue of its own: a first
+        // record with an EMPTY payload, a second record, a truncation of the first
+        let mut script: std::collections::VecDeque<Op> = std::collections::VecDeque::new();
+        if rng.chance(1, 3) {
+            let q = "first-record-empty".to_string();
+            script.push_back(Op::Create { q: q.clone() });
+            script.push_back(Op::Append { q: q.clone(), pos: None, lens: vec![0], chained: false });
+            let second = if rng.chance(1, 2) { None } else { Some(rng.usize(2, 9) as u64) };
+            script.push_back(Op::Append { q: q.clone(), pos: second, lens: vec![rng.usize(1, 300)], chained: false });
+            script.push_back(Op::Truncate { q: q.clone(), pos: 0 });
+            script.push_back(Op::Append { q, pos: None, lens: vec![rng.usize(0, 50)], chained: false });
+            acc.count("histories_starting_with_an_empty_first_record");
+        }
         for _ in 0..nops {
-            let st = d.step();
+            let st = match script.pop_front() {
+                Some(op) => {
+                    d.gen.note_external(&op);
+                    d.apply(op)
+                }
+                None => d.step(),
+            };
             if st.outcome.is_io_err() {
                 acc.inconclusive(format!("I/O error from a live call: {:?}", st.outcome));
                 return;
@@ -161,6 +180,16 @@ impl Monitor for C16 {
                     format!("C16/used-exceeds-what-the-specification-retains/after-{}", st.op.kind()),
                     case,
                     json!({"history": d.history_json(300), "after_call": st.op.to_json(), "memory_used_bytes": used, "specified_retained_payload_bytes": pm, "queue_name_bytes": nm, "specified_retained_records": rm, "observed_retained_payload_bytes": p, "observed_retained_records": r, "observed_vs_specified_state": model.snapshot().diff(&snap), "outcome": st.outcome.to_json()}),
+                );
+                return;
+            }
+            // ... and at the overhead calibrated on this build: one record the specification
+            // does not retain (24 bytes of bookkeeping, no payload) must not hide in the slack
+            if used > pm + nm + per_record * rm {
+                acc.violation(
+                    format!("C16/used-exceeds-what-the-specification-retains-at-the-calibrated-overhead/after-{}", st.op.kind()),
+                    case,
+                    json!({"history": d.history_json(300), "after_call": st.op.to_json(), "memory_used_bytes": used, "specified_retained_payload_bytes": pm, "queue_name_bytes": nm, "specified_retained_records": rm, "calibrated_per_record_overhead": per_record, "observed_retained_records": r, "observed_vs_specified_state": model.snapshot().diff(&snap), "outcome": st.outcome.to_json()}),
                 );
                 return;
             }
